@@ -11,6 +11,7 @@ import (
 	"go/types"
 	"math"
 	"math/big"
+	"regexp"
 	"strings"
 
 	"golang.org/x/tools/go/ssa"
@@ -130,6 +131,9 @@ func (fr *frame) call(c *ssa.Call) Val {
 		return v
 	}
 	if v, ok := fr.predicateCall(c, callee, args); ok {
+		return v
+	}
+	if v, ok := fr.matcherCall(c, callee, args); ok {
 		return v
 	}
 	if !InModule(callee) || callee.Blocks == nil {
@@ -745,4 +749,105 @@ func (fr *frame) predicateCall(c *ssa.Call, fn *ssa.Function, args []Val) (Val, 
 		hi = lo
 	}
 	return Val{K: KStr, S: s[lo:hi], Dep: dep}, true
+}
+
+// matcherCall models strings.Replacer and regexp.Regexp objects built from
+// constants: the object is a fresh cell holding its definition, its matching
+// methods are evaluated on known strings with the standard library's own
+// implementation (the patterns are the analysed program's constants, the
+// matching semantics are Go's).
+func (fr *frame) matcherCall(c *ssa.Call, fn *ssa.Function, args []Val) (Val, bool) {
+	if fn.Pkg == nil {
+		return Val{}, false
+	}
+	pkg, name := fn.Pkg.Pkg.Path(), fn.Name()
+	strT := types.Typ[types.String]
+	recv := ""
+	if r := fn.Signature.Recv(); r != nil {
+		recv = r.Type().String()
+	}
+	dep := false
+	for _, a := range args {
+		dep = dep || a.Dep
+	}
+	switch {
+	case pkg == "strings" && name == "NewReplacer" && recv == "":
+		elems, ok := fr.sliceElems(args[0], strT)
+		if !ok || len(elems)%2 != 0 {
+			return Val{}, false
+		}
+		for _, e := range elems {
+			if e.K != KStr {
+				return Val{}, false
+			}
+		}
+		base := fr.siteName(c)
+		fr.allocate(base)
+		fr.store(Val{K: KPtr, S: base + ".$pairs"}, Val{K: KTuple, Elems: elems}, nil)
+		return Val{K: KPtr, S: base}, true
+	case pkg == "strings" && strings.HasSuffix(recv, "strings.Replacer") && name == "Replace":
+		if args[0].K != KPtr {
+			return Val{}, false
+		}
+		pairs := fr.load(args[0].S+".$pairs", strT)
+		if pairs.K != KTuple || args[1].K != KStr {
+			return topDep(dep), true
+		}
+		var ps []string
+		for _, e := range pairs.Elems {
+			ps = append(ps, e.S)
+		}
+		return Val{K: KStr, S: strings.NewReplacer(ps...).Replace(args[1].S), Dep: dep}, true
+	case pkg == "regexp" && (name == "MustCompile" || name == "Compile") && recv == "":
+		if args[0].K != KStr {
+			return Val{}, false
+		}
+		if _, err := regexp.Compile(args[0].S); err != nil {
+			return Val{}, false
+		}
+		base := fr.siteName(c)
+		fr.allocate(base)
+		fr.store(Val{K: KPtr, S: base + ".$pat"}, args[0], nil)
+		if name == "Compile" {
+			return Val{K: KTuple, Elems: []Val{{K: KPtr, S: base}, {K: KNil}}}, true
+		}
+		return Val{K: KPtr, S: base}, true
+	case pkg == "regexp" && name == "MatchString" && recv == "":
+		if args[0].K == KStr && args[1].K == KStr {
+			if m, err := regexp.MatchString(args[0].S, args[1].S); err == nil {
+				return Val{K: KTuple, Elems: []Val{{K: KBool, B: m, Dep: dep}, {K: KNil}}}, true
+			}
+		}
+		return Val{}, false
+	case pkg == "regexp" && strings.HasSuffix(recv, "regexp.Regexp"):
+		if args[0].K != KPtr {
+			return Val{}, false
+		}
+		pat := fr.load(args[0].S+".$pat", strT)
+		if pat.K != KStr {
+			return Val{}, false
+		}
+		re, err := regexp.Compile(pat.S)
+		if err != nil || len(args) < 2 || args[1].K != KStr {
+			return Val{}, false
+		}
+		switch name {
+		case "MatchString":
+			return Val{K: KBool, B: re.MatchString(args[1].S), Dep: dep}, true
+		case "FindString":
+			return Val{K: KStr, S: re.FindString(args[1].S), Dep: dep}, true
+		case "FindStringIndex":
+			loc := re.FindStringIndex(args[1].S)
+			if loc == nil {
+				return Val{K: KNil}, true
+			}
+			base := fr.siteName(c)
+			fr.allocate(base)
+			for i, x := range loc {
+				fr.store(Val{K: KPtr, S: fmt.Sprintf("%s[%d]", base, i)}, Val{K: KInt, I: big.NewInt(int64(x)), Dep: dep}, nil)
+			}
+			return Val{K: KSlice, S: base, Len: 2}, true
+		}
+	}
+	return Val{}, false
 }
